@@ -3,6 +3,8 @@ package main
 import (
 	"fmt"
 	"os"
+	"path/filepath"
+	"sort"
 	"strings"
 
 	"github.com/jsightapi/jsight-schema-go-library/fs"
@@ -341,4 +343,280 @@ func projectCorrSuite(ctx *Ctx, r *Rng, n int) {
 		docs = append(docs, mutate(r, fixtures[r.Intn(len(fixtures))]))
 	}
 	projectCorrespondence(ctx, docs, nil, "random token sequences, structured token documents with macros and parentheses, byte-level mutants of the fixture files")
+}
+
+// ---- projects of several files: the composed model with INCLUDE at byte level (op "projectfs")
+
+// classifyIncludeMsg: diagnostics of processInclude / the JSIGHT-in-an-included-file check
+func classifyIncludeMsg(msg string) string {
+	switch {
+	case msg == "required parameter(s) not specified (Filename)":
+		return "include required"
+	case strings.HasPrefix(msg, "incorrect parameter (Filename)") && strings.HasSuffix(msg, "isn't exists"):
+		return "include missing"
+	case strings.HasPrefix(msg, "incorrect parameter (Filename)") && strings.HasSuffix(msg, "is a directory"):
+		return "include isDirectory"
+	case strings.HasPrefix(msg, "incorrect parameter (Filename)") && (strings.Contains(msg, "mustn't") || strings.Contains(msg, "the separator for directories")):
+		return "include badName"
+	case msg == "recursion detected":
+		return "include recursion"
+	case strings.HasPrefix(msg, "directive \"JSIGHT\" not allowed in included file"):
+		return "include jsightInIncluded"
+	}
+	return ""
+}
+
+// fsOrder: the files of a project in the order they are sent to the model (the root first)
+func fsOrder(p Project) []string {
+	names := []string{p.Root}
+	var rest []string
+	for k := range p.Files {
+		if k != p.Root {
+			rest = append(rest, k)
+		}
+	}
+	sort.Strings(rest)
+	return append(names, rest...)
+}
+
+func e2eCaseOfProject(p Project, order []string) (ec e2eCase) {
+	defer func() {
+		if r := recover(); r != nil {
+			ec.Skip = "panic (C01 matter)"
+		}
+	}()
+	d, err := os.MkdirTemp(scratchBase(), "jsve")
+	if err != nil {
+		ec.Skip = "scratch"
+		return
+	}
+	defer os.RemoveAll(d)
+	for name, content := range p.Files {
+		full := filepath.Join(d, name)
+		if strings.HasSuffix(name, "/") {
+			_ = os.MkdirAll(full, 0o755)
+			continue
+		}
+		_ = os.MkdirAll(filepath.Dir(full), 0o755)
+		_ = os.WriteFile(full, content, 0o644)
+	}
+	rootName := filepath.Join(d, p.Root)
+	fileIdx := func(abs string) int {
+		rel := relTo(d, abs)
+		for i, n := range order {
+			if strings.TrimSuffix(n, "/") == rel {
+				return i
+			}
+		}
+		return -1
+	}
+	var oo []core.Option
+	if len(p.Banned) > 0 {
+		oo = append(oo, banOptions(p.Banned)...)
+	}
+	oo = append(oo, core.WithFixedSeedForRegex())
+	c2 := core.NewJApiCore(fs.NewFile(rootName, p.Files[p.Root]), oo...)
+	if je := c2.VerifScanOnly(); je != nil {
+		cl := classifyIncludeMsg(je.Msg)
+		if cl == "" {
+			cl = classifyScanStageMsg(je.Msg)
+		}
+		ec.Real = fmt.Sprintf("err %d %s %d", fileIdx(je.VerifFile()), cl, je.Index())
+		return
+	}
+	if je := c2.VerifPasteOnly(); je != nil {
+		cl := classifyPasteStageMsg(je.Msg)
+		for _, dd := range allDirectives(c2.VerifDirectives(), c2.VerifMacros()) {
+			file, kb, _ := dd.VerifKeywordCoords()
+			if dd.Type() == directive.Paste && kb == uint(je.Index()) && file == je.VerifFile() && cl != "recursion" {
+				cl = "inPaste"
+			}
+		}
+		ec.Real = fmt.Sprintf("err %d paste %s %d", fileIdx(je.VerifFile()), cl, je.Index())
+		return
+	}
+	c1 := core.NewJApiCore(fs.NewFile(rootName, p.Files[p.Root]), oo...)
+	if je := c1.ValidateJAPI(); je != nil {
+		cl := classifyBuildMsg(je.Msg)
+		if cl == "" {
+			ec.Skip = "diagnostic of a stage outside the model"
+			return
+		}
+		for _, dd := range flattenDirs(c2.VerifDirectivesWithPastes()) {
+			file, kb, _ := dd.VerifKeywordCoords()
+			if dd.Type() == directive.Enum && kb == uint(je.Index()) && file == je.VerifFile() {
+				ec.Skip = "diagnostic of a stage outside the model"
+				return
+			}
+		}
+		ec.BodyIdx = cl == "descrParens"
+		ec.Real = fmt.Sprintf("err %d build %s %d", fileIdx(je.VerifFile()), cl, je.Index())
+		return
+	}
+	js, err := c1.Catalog().ToJson()
+	if err != nil {
+		ec.Skip = "serialisation error (C09 matter)"
+		return
+	}
+	doc, _, err := ParseOJSON(js)
+	if err != nil {
+		ec.Skip = "unreadable JSON (C09 matter)"
+		return
+	}
+	ec.Real = "ok " + realSkeleton(doc)
+	return
+}
+
+// compareE2EFS: like compareE2E, with the file index in front of the stage
+func compareE2EFS(ec e2eCase, model string) string {
+	if strings.HasPrefix(ec.Real, "ok ") || strings.HasPrefix(model, "ok ") {
+		return compareE2E(ec, model)
+	}
+	var rf, mf int
+	var rrest, mrest string
+	if i := strings.Index(ec.Real[4:], " "); i > 0 {
+		fmt.Sscanf(ec.Real[4:4+i], "%d", &rf)
+		rrest = ec.Real[4+i+1:]
+	}
+	if !strings.HasPrefix(model, "err ") {
+		return "unreadable model outcome"
+	}
+	if i := strings.Index(model[4:], " "); i > 0 {
+		fmt.Sscanf(model[4:4+i], "%d", &mf)
+		mrest = model[4+i+1:]
+	}
+	if why := compareE2E(e2eCase{Real: "err " + rrest, BodyIdx: ec.BodyIdx}, "err "+mrest); why != "" {
+		return why
+	}
+	if rf != mf {
+		return "diagnostic located in another file"
+	}
+	return ""
+}
+
+// projectFSCorrespondence feeds the FILES of projects to the composed model (op projectfs) and to the real pipeline.
+func projectFSCorrespondence(ctx *Ctx, projects []Project, label string) {
+	m, err := ctx.Model("jsight-build")
+	if err != nil {
+		ctx.Break("correspondence composed model (projects): model not available: " + err.Error())
+		return
+	}
+	type item struct {
+		p      Project
+		order  []string
+		ec     e2eCase
+		oracle string
+		out    string
+	}
+	var items []*item
+	for _, p := range projects {
+		tooBig := false
+		for _, c := range p.Files {
+			if len(c) > 6000 {
+				tooBig = true
+			}
+		}
+		if tooBig || len(p.Files) > 60 {
+			continue
+		}
+		order := fsOrder(p)
+		ec := e2eCaseOfProject(p, order)
+		if ec.Skip != "" {
+			ctx.Cov.Hit("projectfs: " + ec.Skip)
+			continue
+		}
+		items = append(items, &item{p: p, order: order, ec: ec})
+	}
+	pending := make([]int, len(items))
+	for i := range pending {
+		pending[i] = i
+	}
+	req := func(it *item) string {
+		var b strings.Builder
+		b.WriteString("projectfs ")
+		if len(it.p.Banned) == 0 {
+			b.WriteString("-")
+		} else {
+			for k, e := range it.p.Banned {
+				if k > 0 {
+					b.WriteString(",")
+				}
+				fmt.Fprintf(&b, "%d", int(e))
+			}
+		}
+		fmt.Fprintf(&b, " %d", len(it.order))
+		for _, n := range it.order {
+			if strings.HasSuffix(n, "/") {
+				b.WriteString(" " + hxs(strings.TrimSuffix(n, "/")) + " DIR")
+			} else {
+				b.WriteString(" " + hxs(n) + " " + hxs(string(it.p.Files[n])))
+			}
+		}
+		b.WriteString(it.oracle)
+		return b.String()
+	}
+	for round := 0; len(pending) > 0 && round < 400; round++ {
+		reqs := make([]string, len(pending))
+		for k, i := range pending {
+			reqs[k] = req(items[i])
+		}
+		resp, err := m.Batch(reqs)
+		if err != nil {
+			ctx.Break("model executable jsight-build failed: " + err.Error())
+			return
+		}
+		var next []int
+		for k, i := range pending {
+			r := resp[k]
+			it := items[i]
+			if strings.HasPrefix(r, "miss ") {
+				var f, cur int
+				var kind string
+				fmt.Sscanf(r, "miss %d %s %d", &f, &kind, &cur)
+				if f < 0 || f >= len(it.order) {
+					it.out = "bad-miss"
+					continue
+				}
+				ans := LibLen(it.p.Files[it.order[f]], cur, kind == "e")
+				if ans == "panic" {
+					it.out = "fault-lib"
+					continue
+				}
+				it.oracle += fmt.Sprintf(" %d:%s:%d:%s", f, kind, cur, ans)
+				next = append(next, i)
+				continue
+			}
+			it.out = r
+		}
+		pending = next
+	}
+	bad, n := 0, 0
+	for _, it := range items {
+		if it.out == "" || it.out == "fault-lib" {
+			ctx.Cov.Hit("projectfs: no answer (" + it.out + ")")
+			continue
+		}
+		n++
+		var key []byte
+		for _, nm := range it.order {
+			key = append(append(key, nm...), it.p.Files[nm]...)
+		}
+		ctx.Cov.Count(key, len(it.order) >= 2)
+		if strings.HasPrefix(it.ec.Real, "ok ") {
+			ctx.Cov.Hit("projectfs: accepted")
+		} else if f := strings.Fields(it.ec.Real); len(f) >= 4 {
+			ctx.Cov.Hit("projectfs: err " + f[2] + " " + f[3])
+		}
+		if why := compareE2EFS(it.ec, it.out); why != "" {
+			bad++
+			if bad <= 3 {
+				var desc strings.Builder
+				for _, nm := range it.order {
+					fmt.Fprintf(&desc, "[%s] %q ", nm, trunc(string(it.p.Files[nm]), 300))
+				}
+				ctx.Break(fmt.Sprintf("correspondence composed model files -> catalog (%s): project %s: implementation %q, model %q", why, trunc(desc.String(), 1200), trunc(it.ec.Real, 700), trunc(it.out, 700)))
+			}
+		}
+	}
+	ctx.Cov.Component("composed model of projects: Model/Project.lean processFS (files -> lexemes -> INCLUDE -> directives -> forest -> expansion -> catalog skeleton) vs the real pipeline on "+label, n, bad, "")
 }
